@@ -47,7 +47,10 @@ enum op_kind
   K_ATOMIC_LOAD,
   K_ATOMIC_STORE,
   K_ATOMIC_RMW,
-  K_END
+  K_END,
+  K_RDLOCK,
+  K_WRLOCK,
+  K_RWUNLOCK
 };
 
 struct vclock
@@ -105,6 +108,13 @@ struct global
   vsched::exec_result res;
   std::uint64_t steps = 0;
   raw_map<void const *, int> owner;
+  struct rwstate
+  {
+    int writer = 0;  // tid + 1 of the writer, 0 = none
+    int readers = 0; // number of shared holders
+    unsigned reader_mask = 0;
+  };
+  raw_map<void const *, rwstate> rw;
   raw_map<std::uintptr_t, vclock> sync;
   raw_map<std::uintptr_t, cell> shadow;
 };
@@ -157,6 +167,13 @@ bool op_enabled(lthread const &t)
     auto it = G->owner.find(t.pending_addr);
     return it == G->owner.end() || it->second == 0;
   }
+  if (t.pending_kind == K_RDLOCK || t.pending_kind == K_WRLOCK)
+  {
+    auto it = G->rw.find(t.pending_addr);
+    if (it == G->rw.end())
+      return true;
+    return t.pending_kind == K_RDLOCK ? it->second.writer == 0 : (it->second.writer == 0 && it->second.readers == 0);
+  }
   return true;
 }
 
@@ -164,7 +181,10 @@ bool op_enabled(lthread const &t)
 {
   std::fprintf(stderr, "VRT-DEADLOCK: no enabled thread;");
   for (int i = 1; i <= G->nthreads; ++i)
-    std::fprintf(stderr, " T%d:%s", i, G->t[i].finished ? "finished" : (G->t[i].pending_kind == K_LOCK ? "blocked-on-mutex" : "?"));
+    std::fprintf(stderr, " T%d:%s", i,
+                 G->t[i].finished ? "finished"
+                                  : (G->t[i].pending_kind == K_LOCK ? "blocked-on-mutex"
+                                                                    : (G->t[i].pending_kind == K_RDLOCK || G->t[i].pending_kind == K_WRLOCK ? "blocked-on-rwlock" : "?")));
   std::fprintf(stderr, "\n");
   std::fflush(nullptr);
   _exit(94);
@@ -346,6 +366,11 @@ void on_free(void *p, std::size_t n)
     std::uintptr_t a = reinterpret_cast<std::uintptr_t>(it->first);
     it = (a >= lo && a < hi) ? G->owner.erase(it) : std::next(it);
   }
+  for (auto it = G->rw.begin(); it != G->rw.end();)
+  {
+    std::uintptr_t a = reinterpret_cast<std::uintptr_t>(it->first);
+    it = (a >= lo && a < hi) ? G->rw.erase(it) : std::next(it);
+  }
 }
 
 inline void acquire(std::uintptr_t obj)
@@ -402,6 +427,7 @@ void reset_shadow()
   G->shadow.clear();
   G->sync.clear();
   G->owner.clear();
+  G->rw.clear();
 }
 
 exec_result run(std::vector<std::function<void()>> const &threads, std::vector<choice> const &prefix)
@@ -563,6 +589,73 @@ int vsched_mutex_unlock(pthread_mutex_t *m)
   release(reinterpret_cast<std::uintptr_t>(m));
   return 0;
 }
+// reader/writer locks (std::shared_mutex): a writer excludes everybody, readers exclude writers.
+// Happens-before: every unlock releases into the lock's clock, every lock acquires it (this also
+// orders reader->reader, a slight over-approximation of the real edges that can only hide a race
+// between two *readers*, never invent one).
+int vsched_rwlock_rdlock(pthread_rwlock_t *l)
+{
+  ensure();
+  if (scheduled_context())
+    sched_point(K_RDLOCK, l);
+  auto &st = G->rw[l];
+  ++st.readers;
+  st.reader_mask |= 1U << tls_tid;
+  acquire(reinterpret_cast<std::uintptr_t>(l));
+  return 0;
+}
+int vsched_rwlock_wrlock(pthread_rwlock_t *l)
+{
+  ensure();
+  if (scheduled_context())
+    sched_point(K_WRLOCK, l);
+  auto &st = G->rw[l];
+  st.writer = tls_tid + 1;
+  acquire(reinterpret_cast<std::uintptr_t>(l));
+  return 0;
+}
+int vsched_rwlock_tryrdlock(pthread_rwlock_t *l)
+{
+  ensure();
+  if (scheduled_context())
+    sched_point(K_TRYLOCK, l);
+  auto &st = G->rw[l];
+  if (st.writer != 0)
+    return 16;
+  ++st.readers;
+  st.reader_mask |= 1U << tls_tid;
+  acquire(reinterpret_cast<std::uintptr_t>(l));
+  return 0;
+}
+int vsched_rwlock_trywrlock(pthread_rwlock_t *l)
+{
+  ensure();
+  if (scheduled_context())
+    sched_point(K_TRYLOCK, l);
+  auto &st = G->rw[l];
+  if (st.writer != 0 || st.readers != 0)
+    return 16;
+  st.writer = tls_tid + 1;
+  acquire(reinterpret_cast<std::uintptr_t>(l));
+  return 0;
+}
+int vsched_rwlock_unlock(pthread_rwlock_t *l)
+{
+  ensure();
+  if (scheduled_context())
+    sched_point(K_RWUNLOCK, l);
+  auto &st = G->rw[l];
+  if (st.writer == tls_tid + 1)
+    st.writer = 0;
+  else if (st.readers > 0)
+  {
+    --st.readers;
+    st.reader_mask &= ~(1U << tls_tid);
+  }
+  release(reinterpret_cast<std::uintptr_t>(l));
+  return 0;
+}
+
 // blocking primitives that are not modelled: a change that introduces them must not silently
 // block a descheduled thread for real -- stop with a harness error instead
 [[noreturn]] static void unsupported(char const *what)
@@ -575,11 +668,6 @@ int vsched_mutex_unlock(pthread_mutex_t *m)
   int vsched_unsupported_##name(void *, void *, void *) { unsupported(#name); }
 VS_UNSUPPORTED(pthread_mutex_timedlock)
 VS_UNSUPPORTED(pthread_mutex_clocklock)
-VS_UNSUPPORTED(pthread_rwlock_rdlock)
-VS_UNSUPPORTED(pthread_rwlock_wrlock)
-VS_UNSUPPORTED(pthread_rwlock_unlock)
-VS_UNSUPPORTED(pthread_rwlock_tryrdlock)
-VS_UNSUPPORTED(pthread_rwlock_trywrlock)
 VS_UNSUPPORTED(pthread_rwlock_timedrdlock)
 VS_UNSUPPORTED(pthread_rwlock_timedwrlock)
 VS_UNSUPPORTED(pthread_rwlock_clockrdlock)
